@@ -51,7 +51,7 @@ def gen_plan(seed: int, tier: str) -> dict:
     r = random.Random(seed)
     code = "%03d-%02d-%03d" % (r.randrange(1000), r.randrange(100), r.randrange(1000))
     return {
-        "driver": r.choice(["pipe-ip", "pipe-ip", "pipe-ble", "ip"]),
+        "driver": r.choice(["pipe-ip", "pipe-ip", "pipe-ble", "ip", "ble-link", "coap"]), "fsize": r.choice([23, 100, 155, 244, 512]), "tlv_frag": r.choice([None, None, 100, 255, 400]),
         "code": code,
         "mut": r.choice(MUT_KINDS),
         "mseed": r.randrange(10**9),
@@ -189,6 +189,21 @@ def run_exchange(plan: dict, ch: Chooser, ctx: Ctx, urandom_hook=None, controlle
                 out["exc"] = e
                 if not out["delivered"]:
                     out["delivered"] = pipe.delivered
+        elif plan["driver"] in ("ble-link", "coap"):
+            from aiohomekit.protocol import perform_pair_setup_part1, perform_pair_setup_part2
+            from checks.protocommon import run_ble_link, run_coap
+
+            try:
+                if plan["driver"] == "ble-link":
+                    ios_id = "ios-" + str(ch.nint("iosid", 10**9))
+                    out["result"], out["delivered"] = run_ble_link(
+                        ctx, ch, "PAIR_SETUP", [lambda _: perform_pair_setup_part1(plan["with_auth"]), lambda sp: perform_pair_setup_part2(pin, ios_id, sp[0], sp[1])],
+                        setup.handle, wire_hook, fsize=plan.get("fsize", 100), tlv_frag=plan.get("tlv_frag"))
+                else:
+                    out["result"], out["delivered"] = run_coap(ctx, ch, "setup", setup.handle, wire_hook, pin=pin, with_auth=plan["with_auth"])
+            except Exception as e:  # noqa: BLE001
+                out["exc"] = e
+                out["delivered"] = getattr(e, "delivered", [])
         else:
             out.update(_run_ip(plan, ch, ctx, setup, ident, pin, wire_hook))
     finally:
